@@ -16,8 +16,8 @@ def _is_time_call(n):
 
 
 def _is_logger(st):
-    return (isinstance(st, ast.Expr) and isinstance(st.value, ast.Call) and isinstance(st.value.func, ast.Attribute)
-            and isinstance(st.value.func.value, ast.Name) and st.value.func.value.id == 'logger')
+    from translate.common import is_logger_call
+    return is_logger_call(st, FILE)
 
 
 def check(repo):
